@@ -1,6 +1,19 @@
-"""C01 — tags are transparent: one source evaluates to its plain-YAML content."""
+"""C01 — tags are transparent: one source evaluates to its plain-YAML content.
+
+Second family (`kind: meta`): the TEXT step `_encode_all_metadata` / `_get_metadata_content` / `_decode_metadata`
+against AY.Model.MetaText (driver ops metaSplice, metaSplit).  A case is a list of segments: plain text pieces and
+`!tag{{python dict}}` blocks (0..6 blocks: nested braces in the literal, strings with quotes / braces / unicode,
+`{{` inside quoted scalars without a tag in front, adjacent blocks, a block at the very start / the very end).  The
+real functions run on the text; the ranges they find, the replacement strings they compute and the ends the real
+tokenizer-based `_get_metadata_end` reports at EVERY `{{` of the text go to the model, which must reproduce the
+rewritten text character by character (literal loop = one-pass specification), the ranges (its own search loop and
+tag regex, ends from the table) and the special/user split of every decoded dict.  Oracle on the implementation alone:
+outside the blocks the text is unchanged, every block became `:hex` and the hex decodes to the python literal, in
+order; no constructor keyword stays in the user metadata."""
+import re, pickle, inspect
 import yaml as pyyaml
 from props.mergefam import *
+from awesomeyaml import yaml as ay_yaml
 
 def erase(n):
     m = {k: v for k, v in n.items() if k not in ('t', 'kw', 'txt')}
@@ -20,6 +33,289 @@ def py_to_val(v):
 def plain_to_val(p):
     return p   # driver's plainJ already uses {'d': ..} / {'l': ..} / scalars
 
+# ------------------------------------------------------------------------------------------------
+# family `meta`: the {{...}} rewriting on text
+# ------------------------------------------------------------------------------------------------
+_TAG_RE = re.compile(r'(![a-zA-Z0-9_:.()]+){{')          # the pattern of _get_metadata_content, for the `tags` cross-check
+_META_TAGS = ['!metadata', '!del', '!x', '!call:f.g', '!bind:m.f(x)', '!required', '!path:parent(2)', '!a.b:c_d', '!Z9', '!null']
+_META_TEXTS = ['a: ', 'k: ', '\n', ' ', ' ', ', ', '\n- ', ' 5\n', ' [1, 2]\n', "q: '{{ not a block }}'\n", 'r: "}} {{"\n',
+               'x: {y: {z: 1}}\n', '# c {{\n', 'e: !tag no braces\n', '! ', '!{{', 'a! {{', '{{', '}}', 'ü: ✓ 😀\n', '"!é{{"', '\t',
+               '- !plain\n', '[', ']', '{', '}', ': ', '\u00a0', '𝔘{', '!!', '']
+_META_SEPS = [' ', '\n', ',', ' ', '  ', '\n  ', ' x ', ', ']
+_SPECIAL_CANON = [p for p in inspect.signature(ConfigNode.__init__).parameters
+                  if p not in ('self', 'metadata', 'pyyaml_node') and not p.startswith('implicit_')]   # the constructor keywords
+
+def _cps(s): return [ord(c) for c in s]
+def _str(cps): return ''.join(chr(c) for c in cps)
+
+def meta_text(segs):
+    return ''.join(s[1] if s[0] == 't' else s[1] + '{' + s[2] + '}' for s in segs)
+
+def _py_src(v, rng, depth=0, multiline=False):
+    """python source of a value, in a random but valid spelling"""
+    if isinstance(v, dict):
+        sp = '\n ' if multiline and depth == 0 else rng.choice(['', '', ' '])
+        items = [_py_src(k, rng, depth + 1) + rng.choice([': ', ':', ' : ']) + _py_src(x, rng, depth + 1) for k, x in v.items()]
+        tail = rng.choice(['', '', ',']) if items else ''
+        return '{' + sp + rng.choice([', ', ',', ' , ']).join(items) + tail + sp + '}'
+    if isinstance(v, list):
+        return '[' + ', '.join(_py_src(x, rng, depth + 1) for x in v) + ']'
+    if isinstance(v, tuple):
+        return '(' + ', '.join(_py_src(x, rng, depth + 1) for x in v) + (',' if len(v) == 1 else '') + ')'
+    if isinstance(v, str) and rng.random() < 0.3 and "'" not in v and '"' not in v and '\\' not in v and v.isprintable():
+        return '"' + v + '"'
+    return repr(v)
+
+_MD_STRS = ['bar', 'lru', '', 'a b', "it's", 'q"r', '{', '}', '{{', '} }', '{x}', '!t{{', 'é✓', '😀', '#', ':', 'a\nb', '}}', 'p}}q', '\\']
+def _md_value(rng, depth):
+    r = rng.random()
+    if depth <= 0 or r < 0.55:
+        return rng.choice([0, 1, -1, 7, True, False, None, 1.5] + _MD_STRS)
+    if r < 0.7:
+        return [_md_value(rng, depth - 1) for _ in range(rng.choice([0, 1, 2, 3]))]
+    if r < 0.78:
+        return tuple(_md_value(rng, depth - 1) for _ in range(rng.choice([0, 1, 2])))
+    return {rng.choice(['y', 'z', 'n', 1, 'k k', 'safe']): _md_value(rng, depth - 1) for _ in range(rng.choice([0, 1, 2]))}
+
+def _md_dict(rng):
+    d = {}
+    for _ in range(rng.choice([0, 1, 1, 2, 3, 4])):
+        if rng.random() < 0.45:
+            k = rng.choice(['priority', 'delete', 'allow_new', 'safe', 'idx', 'source_file'])
+            d[k] = {'priority': rng.choice([-1, 0, 1]), 'delete': rng.choice([True, False]), 'allow_new': rng.choice([True, False]),
+                    'safe': rng.choice([True, False]), 'idx': rng.choice([0, 3]), 'source_file': rng.choice(['f.yaml', None])}[k]
+        else:
+            d[rng.choice(['foo', 'note', 'available_options', 'metadata', 'Priority', 'safe_', '_safe', 'k k', 'ü', 1, (1, 2), 'x'])] = _md_value(rng, 2)
+    return d
+
+def gen_meta_case(rng):
+    """segments of one text: 0..6 blocks between text pieces"""
+    nb = rng.choice([0, 1, 1, 2, 2, 3, 4, 5, 6])
+    segs = []
+    if rng.random() < 0.7:
+        segs.append(['t', ''.join(rng.choice(_META_TEXTS) for _ in range(rng.choice([1, 1, 2, 3])))])
+    hard = rng.random() < 0.12      # a case that may contain what the end finder of the implementation cannot read (see meta_expect)
+    for i in range(nb):
+        src = _py_src(_md_dict(rng), rng, 0, hard and rng.random() < 0.3)
+        for _ in range(40):
+            if hard or ('{' + src + '}').find('}}', 2) == len(src):
+                break
+            src = _py_src(_md_dict(rng), rng)
+        else:
+            src = '{}'
+        blk = ['b', rng.choice(_META_TAGS), src]
+        segs.append(blk)
+        if i + 1 < nb or rng.random() < 0.75:        # else: the block is the very end of the text
+            r = rng.random()
+            if r < 0.35 and i + 1 < nb:
+                segs.append(['t', rng.choice(_META_SEPS)])        # adjacent blocks: a short separator
+            elif r < 0.4 and i + 1 < nb:
+                pass                                              # glued: the next tag follows without a separator
+            else:
+                segs.append(['t', rng.choice(_META_SEPS) + ''.join(rng.choice(_META_TEXTS) for _ in range(rng.choice([0, 1, 2])))])
+    if rng.random() < 0.06:          # a block that never ends: the ValueError / tokenizer-error path of the search loop
+        segs.append(['t', rng.choice([" !u{{'a': 1} ", ' !u{{', " !u{{'a': 'x}}", " !u{{'a': 1}"])])
+    return {'docs': [], 'style': ['flow', 0, 0], 'kind': 'meta', 'segs': segs}
+
+def META(*segs):
+    return {'docs': [], 'style': ['flow', 0, 0], 'kind': 'meta', 'segs': [list(s) for s in segs]}
+
+META_CORPUS = [
+    META(('t', 'caching_policy: '), ('b', '!metadata', "{ 'available_options': ['lru', 'fifo', 'filo'] }"), ('t', ' lru\n')),     # README
+    META(('b', '!del', "{'delete': True, 'priority': -1, 'note': 'x'}")),                                     # the whole text is one block
+    META(('b', '!a', '{}'), ('t', ' '), ('b', '!b', "{'k': 1}"), ('t', ','), ('b', '!c', "{'safe': False}"), ('t', '\n'),
+         ('b', '!d', "{'x': [{'y': 1}, 2]}"), ('t', ' '), ('b', '!e', "{'ü': '😀'}"), ('t', ' '), ('b', '!f', "{1: (2, 3)}")),   # six blocks, one-character gaps
+    META(('t', "q: '{{ not a block }}'\nr: \"}} {{\"\ns: {t: {u: 1}}\n!{{ a! {{ 'x'}}\n")),                       # braces, no block
+    META(('t', 'a: '), ('b', '!metadata', "{'x': {'y': 1}, 'z': {} }"), ('t', ' 5\n')),                        # nested braces the end finder reads
+    META(('t', 'a: '), ('b', '!metadata', "{'x': {'y': 1}}"), ('t', ' 5\n')),                                  # limit: nested closing braces
+    META(('t', 'a: '), ('b', '!metadata', "{'x': 'p}}q'}"), ('t', ' 5\n')),                                    # limit: '}}' in a string
+    META(('t', 'a: '), ('b', '!metadata', "{\n 'x': 1,\n }"), ('t', ' 5\nb: 6\n')),                           # multiline
+    META(('b', '!a', "{'k': 1}"), ('b', '!b', "{'k': 2}")),                                                   # glued
+    META(('t', 'a: '), ('b', '!x', "{'k': 1}"), ('t', " b: !u{{'never': 1} ")),                               # no end: ValueError
+]
+
+def meta_expect(segs):
+    """what the generator knows about the case: 'ok' (the oracle applies) or the reason why it does not:
+    'glued' — a tag directly after a block (the search resumes one character after the block, past the '!');
+    'stray' — the text pieces themselves contain a tag followed by '{{'"""
+    text = meta_text(segs)
+    pos, begs = 0, []
+    for s in segs:
+        if s[0] == 'b':
+            begs.append(pos + len(s[1]))
+            # nested closing braces, '}}' inside a string and literals with line breaks used to defeat the end finder
+            # (D36-D38, repaired: the block ends at the first '}}' outside strings and nested brackets): the oracle applies
+        pos += len(s[1]) if s[0] == 't' else len(s[1]) + len(s[2]) + 2
+    for i, s in enumerate(segs[:-1]):
+        if s[0] == 'b' and (segs[i + 1][0] == 'b' or (segs[i + 1][1] == '' and i + 2 < len(segs) and segs[i + 2][0] == 'b')):
+            return 'glued'
+    inside = lambda b: any(bb <= b < bb + len(s[2]) + 2 for bb, s in zip(begs, [x for x in segs if x[0] == 'b']))
+    for m in _TAG_RE.finditer(text):
+        if m.end(1) not in begs and not inside(m.end(1)):
+            return 'stray'
+    # a tag character run in front of a block tag would extend the match to the left but not move its end: fine
+    return 'ok'
+
+def meta_impl(case):
+    """the real functions on the text, with the ranges and the replacement strings they compute recorded"""
+    text = meta_text(case['segs'])
+    obs = {'text': text}
+    try:
+        obs['ranges'] = [list(r) for r in ay_yaml._get_metadata_content(text)]
+    except Exception as e:  # noqa
+        obs['ranges_error'] = [type(e).__name__, str(e)]
+    ends = []
+    for b in range(len(text)):
+        if text[b:b + 2] == '{{':
+            try:
+                ends.append([b, ay_yaml._get_metadata_end(text, b)])
+            except Exception as e:  # noqa
+                ends.append([b, {'raise': type(e).__name__}])
+    obs['ends'] = ends
+    rec = {'ranges': [], 'enc': []}
+    orig_content, orig_encode = ay_yaml._get_metadata_content, ay_yaml._encode_metadata
+    def content(data):
+        for r in orig_content(data):
+            rec['ranges'].append(list(r))
+            yield r
+    def encode(md):
+        e = orig_encode(md)
+        rec['enc'].append(e)
+        return e
+    ay_yaml._get_metadata_content, ay_yaml._encode_metadata = content, encode
+    try:
+        obs['out'] = ay_yaml._encode_all_metadata(text)
+    except Exception as e:  # noqa
+        obs['out_error'] = [type(e).__name__, str(e)[:120]]
+    finally:
+        ay_yaml._get_metadata_content, ay_yaml._encode_metadata = orig_content, orig_encode
+    obs['seen_ranges'] = rec['ranges']
+    obs['repls'] = [':' + e for e in rec['enc']]
+    dec = []
+    for e in rec['enc']:
+        try:
+            lit = pickle.loads(bytes.fromhex(e))
+            kw = ay_yaml._decode_metadata(e)
+            dec.append({'lit': [[_key_token(k), repr(v)] for k, v in lit.items()] if isinstance(lit, dict) else None,
+                        'kw': [[_key_token(k), repr(v)] for k, v in kw.items() if k != 'metadata'],
+                        'user': [[_key_token(k), repr(v)] for k, v in kw['metadata'].items()] if isinstance(kw.get('metadata'), dict) else None,
+                        'has_md': 'metadata' in kw})
+        except Exception as ex:  # noqa
+            dec.append({'error': type(ex).__name__})
+    obs['decoded'] = dec
+    obs['empty'] = [ay_yaml._decode_metadata(''), ay_yaml._decode_metadata(None)]
+    return obs
+
+def _key_token(k):
+    return 's:' + k if isinstance(k, str) else 'o:' + repr(k)
+
+def meta_requests(case, io):
+    n = len(io['repls'])
+    reqs = [{'op': 'metaSplice', 'text': _cps(io['text']),
+             'ranges': [[b, e, _cps(r)] for (b, e), r in zip(io['seen_ranges'][:n], io['repls'])],
+             'ends': [[b, e if isinstance(e, int) else None] for b, e in io['ends']]}]
+    for d in io['decoded']:
+        if d.get('lit') is not None:
+            reqs.append({'op': 'metaSplit', 'md': d['lit']})
+    return reqs
+
+def meta_compare(case, io, answers):
+    a = answers[0]
+    if 'bad' in a:
+        return 'driver op metaSplice failed: ' + a['bad']
+    text = io['text']
+    # 1. the search loop: the model's own ranges (tag regex + loop, ends from the real tokenizer) against the real ones
+    found = a['found']
+    if 'ranges' in io:
+        if found.get('ok') != io['ranges']:
+            return f'ranges: _get_metadata_content finds {io["ranges"]}, the model {json.dumps(found)} in {text!r}'
+    else:
+        cls, msg = io['ranges_error']
+        if found.get('err') != 'noEnd':
+            return f'ranges: _get_metadata_content raises {cls}({msg!r}), the model answers {json.dumps(found)} for {text!r}'
+        at = dict((b, e) for b, e in io['ends']).get(found['beg'])
+        if at is None:
+            if cls != 'ValueError' or not msg.endswith(f'begins at: {found["start"]}'):
+                return f'ranges: the model reports no end for the tag at {found["start"]}; the implementation raises {cls}({msg!r})'
+        elif not (isinstance(at, dict) and at['raise'] == cls):
+            return f'ranges: the end finder answers {at!r} at {found["beg"]}, yet _get_metadata_content raises {cls}({msg!r})'
+    tags = [[m.start(), m.end(1)] for m in _TAG_RE.finditer(text)]
+    if a['tags'] != tags:
+        return f'tag regex: re finds {tags}, the model {a["tags"]} in {text!r}'
+    # 2. the splice loop, on the ranges and replacement strings of the real run
+    n = len(io['repls'])
+    if 'out' in io:
+        if n != len(io['seen_ranges']):
+            return f'{len(io["seen_ranges"])} ranges but {n} replacement strings were computed'
+        if _str(a['text']) != io['out']:
+            return f'rewritten text: implementation {io["out"]!r}, model (literal loop) {_str(a["text"])!r}; ranges {io["seen_ranges"]}'
+    if a['pre']:
+        if a['spec'] != a['text']:
+            return f'the literal loop and the one-pass specification differ although the ranges are ascending: {_str(a["text"])!r} / {_str(a["spec"])!r}'
+        if a['erased'] != a['outside']:
+            return f'erasing the blocks and keeping the characters outside them differ: {_str(a["erased"])!r} / {_str(a["outside"])!r}'
+    elif 'ranges' in io:
+        return f'the ranges {io["seen_ranges"]} of the real run are not ascending / inside the text'
+    # 3. the special / user split of every decoded dict
+    k = 1
+    for d in io['decoded']:
+        if d.get('lit') is None:
+            continue
+        s = answers[k]; k += 1
+        if 'bad' in s:
+            return 'driver op metaSplit failed: ' + s['bad']
+        if s['kw'] != d['kw'] or s['user'] != d['user'] or not d['has_md']:
+            return (f'_decode_metadata of {d["lit"]}: keywords {d["kw"]} / user metadata {d["user"]}; '
+                    f'model: {s["kw"]} / {s["user"]}')
+    if io['empty'] != [{}, {}]:
+        return f'_decode_metadata of an empty suffix: {io["empty"]!r}'
+    return None
+
+def meta_oracle(case, io):
+    exp = meta_expect(case['segs'])
+    if exp != 'ok':
+        return None
+    if 'out' not in io:
+        return f'_encode_all_metadata failed on a text whose blocks are python dict literals: {io.get("out_error")}; text {io["text"]!r}'
+    out, pos, nblk = io['out'], 0, 0
+    for s in case['segs']:
+        if s[0] == 't':
+            if out[pos:pos + len(s[1])] != s[1]:
+                return f'text outside the blocks changed: expected {s[1]!r} at {pos} of {out!r}'
+            pos += len(s[1])
+            continue
+        if out[pos:pos + len(s[1])] != s[1]:
+            return f'tag {s[1]!r} expected at {pos} of {out!r}'
+        pos += len(s[1])
+        m = re.compile(r':([0-9a-f]*)').match(out, pos)
+        if not m:
+            return f'block #{nblk} ({s[1]}{{{s[2]}}}) was not rewritten to :hex at {pos} of {out!r}'
+        try:
+            got = pickle.loads(bytes.fromhex(m.group(1)))
+        except Exception as e:  # noqa
+            return f'block #{nblk}: the hex suffix does not decode ({type(e).__name__}) in {out!r}'
+        want = eval(s[2])
+        if repr(got) != repr(want) or got != want:
+            return f'block #{nblk}: decodes to {got!r}, the literal is {want!r}'
+        kw = ay_yaml._decode_metadata(m.group(1))
+        user = kw.get('metadata')
+        if not isinstance(user, dict):
+            return f'block #{nblk}: _decode_metadata gives no user metadata dict: {kw!r}'
+        for key, v in want.items():
+            where = [key in user and repr(user[key]) == repr(v), key in kw and key != 'metadata' and repr(kw[key]) == repr(v)]
+            if key in _SPECIAL_CANON and isinstance(key, str):
+                if where != [False, True]:
+                    return f'block #{nblk}: the constructor keyword {key!r} of {want!r} is not passed as a keyword (or stays in the user metadata): {kw!r}'
+            elif where[0] is not True or (key != 'metadata' and key in kw):
+                return f'block #{nblk}: the user key {key!r} of {want!r} is not (only) in the user metadata: {kw!r}'
+        if list(user.keys()) != [k for k in want if k not in _SPECIAL_CANON]:
+            return f'block #{nblk}: user metadata keys {list(user.keys())!r} are not the non-special keys of {want!r} in order'
+        pos = m.end()
+        nblk += 1
+    if pos != len(out):
+        return f'trailing text {out[pos:]!r} after the last segment'
+    return None
+
 class C01(MergeFamProp):
     ID = 'C01'
     VOCAB = G.Vocab(prio=True, delete=True, new=True, unsafe=True, meta=True)
@@ -34,7 +330,7 @@ class C01(MergeFamProp):
 
     def corpus(self):
         D = lambda raw: {'docs': [{'raw': raw}], 'style': ['flow', 0, 0]}
-        return [
+        return META_CORPUS + [
             D(M({'a': M({'b': M({'c': Q([S(1), S(2)])})}, kw={'prio': 1})})),                      # D01 witness
             D(M({'_w': S(3), 'a': M({'_u': S(1), 'v': S(2)})})),                                   # D02 witness
             D(M({'a': Q([M({'x': Q([S(1), M({'y': Q([S(2)])})])})], kw={'del': False}), 'b': Sempty(kw={'prio': -1})}, kw={'safe': False})),
@@ -44,10 +340,70 @@ class C01(MergeFamProp):
     def gen_docs(self, rng, tier):
         return [{'raw': G.gen_doc(rng, self.VOCAB, self.DEPTH, self.PTAG)}]
 
+    def gen_cases(self, rng, n, tier):
+        cases = super().gen_cases(rng, n, tier)
+        return cases + [gen_meta_case(rng) for _ in range(max(1, n // 2))]      # drawn after the others: those stay as they were
+
+    def impl(self, case):
+        if case.get('kind') == 'meta':
+            return meta_impl(case)
+        return super().impl(case)
+
     def model_requests(self, case):
+        if case.get('kind') == 'meta':
+            return meta_requests(case, meta_impl(case))
         return super().model_requests(case) + [{'op': 'erase', 'docs': case['docs']}]
 
+    def model_obs(self, case, answers):
+        if case.get('kind') == 'meta':
+            return {'meta': answers}
+        return super().model_obs(case, answers)
+
+    def compare(self, case, io, mo):
+        if case.get('kind') == 'meta':
+            return meta_compare(case, io, mo['meta'])
+        return super().compare(case, io, mo)
+
+    def render(self, case):
+        if case.get('kind') == 'meta':
+            return ['text: ' + repr(meta_text(case['segs'])), 'segments: ' + json.dumps(case['segs'], ensure_ascii=False)]
+        return super().render(case)
+
+    def features(self, case, io):
+        if case.get('kind') == 'meta':
+            segs = case['segs']
+            nb = sum(1 for s in segs if s[0] == 'b')
+            f = ['kind:meta', f'meta:blocks={nb}', 'meta:expect=' + meta_expect(segs)]
+            if segs and segs[0][0] == 'b': f.append('meta:block-at-start')
+            if segs and segs[-1][0] == 'b': f.append('meta:block-at-end')
+            if any(a[0] == 'b' and b[0] == 't' and len(b[1]) == 1 and c[0] == 'b' for a, b, c in zip(segs, segs[1:], segs[2:])):
+                f.append('meta:adjacent-blocks')
+            if any(s[0] == 'b' and s[2].count('{') > 1 for s in segs): f.append('meta:nested-braces')
+            if any(s[0] == 'b' and '\n' in s[2] for s in segs): f.append('meta:multi-line-literal')
+            if any(ord(c) > 127 for c in meta_text(segs)): f.append('meta:unicode')
+            if any(s[0] == 't' and '{{' in s[1] for s in segs): f.append('meta:braces-outside-blocks')
+            if isinstance(io, dict):
+                f.append('meta:result=' + ('ok' if 'out' in io else io.get('out_error', ['?'])[0]))
+            return f
+        return super().features(case, io)
+
+    def shrink(self, case):
+        if case.get('kind') == 'meta':
+            segs = case['segs']
+            for i in range(len(segs)):
+                yield dict(case, segs=segs[:i] + segs[i + 1:])
+            for i, s in enumerate(segs):
+                if s[0] == 't' and len(s[1]) > 1:
+                    for j in range(len(s[1])):
+                        yield dict(case, segs=segs[:i] + [['t', s[1][:j] + s[1][j + 1:]]] + segs[i + 1:])
+                if s[0] == 'b' and s[2] != '{}':
+                    yield dict(case, segs=segs[:i] + [['b', s[1], '{}']] + segs[i + 1:])
+            return
+        yield from super().shrink(case)
+
     def oracle(self, case, io, ans):
+        if case.get('kind') == 'meta':
+            return meta_oracle(case, io)
         st = case.get('style', ['flow', 0, 0])
         raw = case['docs'][0]['raw']
         try:
@@ -71,6 +427,8 @@ class C01(MergeFamProp):
         return None
 
     def nontrivial(self, case, io):
+        if case.get('kind') == 'meta':
+            return any(s[0] == 'b' for s in case['segs'])
         return any(f.startswith('kw:') for f in doc_features(case['docs']))
 
 PROP = C01()
